@@ -177,7 +177,7 @@ class Monitor:
             self.viol.append(viol(kind, msg + " | signature %s" % self.sigtext, **mech))
 
     def note(self, op, **kw):
-        if len(self.trace) < 40:
+        if len(self.trace) < 10:
             d = {"op": op}
             d.update(kw)
             self.trace.append(d)
@@ -861,7 +861,7 @@ def run_case(case):
     cls = "%s/p%d/d%d/%s/%s/%s%s" % (case["cls"], len(case["names"]), case["ndef"], kinds or "-", case["construct"],
                                     case["variant"], "/lam" if case["lam"] else "")
     return {"cls": cls, "judged": m.judged, "nontrivial": m.calls_judged >= 1, "viol": m.viol, "counters": m.counters,
-            "trace": m.trace[:20], "signature": getattr(m, "sigtext", "")}
+            "trace": m.trace[:10], "signature": getattr(m, "sigtext", "")}
 
 
 def sample_of(case, r):
